@@ -91,16 +91,14 @@ theorem init_inv (g : Graph) (par : Nat) (declared : List (Bytes × Nat)) (k : O
     Inv g par (init declared k) := by
   have hp := initPools_spec declared
   refine { valid := ?_, readySt := ?_, readyNodup := ?_, poolNames := hp.1, queuedSt := ?_,
-           queuedNodup := ?_, poolRunning := ?_, running := ?_, counts := ?_, pending := ?_,
-           parBound := ?_, depthBound := ?_, ordered := ?_ }
+           queuedNodup := ?_, poolRunning := ?_, counts := ?_, pending := ?_, ordered := ?_,
+           running := ?_, parBound := ?_, depthBound := ?_ }
   · intro b hb; simp [init] at hb
   · intro id hid; simp [init] at hid
   · simp [init]
   · intro p hp' id hid; simp [init] at hp'; rw [(hp.2 p hp').1] at hid; simp at hid
   · intro p hp'; simp [init] at hp'; rw [(hp.2 p hp').1]; simp
   · intro p hp'; simp [init] at hp' ⊢; rw [(hp.2 p hp').2, cnt_eq_zero]; · rfl
-    intro b; rfl
-  · simp only [init]; rw [cnt_eq_zero]; · rfl
     intro b; rfl
   · intro x hx
     simp only [init]
@@ -109,9 +107,11 @@ theorem init_inv (g : Graph) (par : Nat) (declared : List (Bytes × Nat)) (k : O
     · intro b; cases x <;> simp_all
   · simp only [init]; rw [cnt_eq_zero]; · rfl
     intro b; rfl
+  · intro b hb; simp [init, gated] at hb
+  · simp only [init]; rw [cnt_eq_zero]; · rfl
+    intro b; rfl
   · simp [init]
   · intro p hp' _; simp [init] at hp'; rw [(hp.2 p hp').2]; omega
-  · intro b hb; simp [init, gated] at hb
 
 /-- `recheck_ready` answers true only if every producer of an ordering input is `Done`. -/
 theorem recheckReady_sound (g : Graph) (s : S) (id : Nat) (h : recheckReady g s id = true) :
